@@ -188,30 +188,47 @@ pub fn run(ctx: &Ctx) -> i32 {
     // precedence: new vs legacy in both orders
     if ctx.wants_family("precedence") {
         let mut cases = Vec::new();
+        // order: 0 new then legacy (same frame), 1 legacy then new (same frame),
+        //        2 new in frame 0 / legacy in frame 1, 3 legacy in frame 0 / new in frame 1, 4 new in frame 0 / legacy in frame 2
         for legacy in [4u16, 0x11] {
-            for order in 0..2 {
+            for order in 0..5 {
                 for indexed in 0..2 {
                     cases.push((legacy, order, indexed));
                 }
             }
         }
-        ctx.family("precedence", cases.len() as u64, "a new-format palette and a legacy chunk (0x0004 / 0x0011) with different contents, in both orders, RGBA and indexed (pixels decoded through the palette)", true);
+        ctx.family("precedence", cases.len() as u64, "a new-format palette and a legacy chunk (0x0004 / 0x0011) with different contents, in both orders within a frame and across frames (new in frame 0 / legacy in frame 1 or 2, legacy in frame 0 / new in frame 1), RGBA and indexed (pixels decoded through the palette)", true);
         for (legacy, order, indexed) in cases {
             let case = || format!("legacy={:#x} order={} indexed={}", legacy, order, indexed);
             if !ctx.wants("precedence", &case) {
                 continue;
             }
             let fmt = if indexed == 1 { Fmt::Indexed(1) } else { Fmt::Rgba };
-            let mut f = gen::file(2, 1, &fmt, &[10]);
+            let mut f = gen::file(2, 1, &fmt, &[10, 20, 30]);
             let newp = new_palette(0, pal_entries(4, 9));
             let lp = old_palette(vec![(0, vec![[1, 2, 3], [4, 5, 6], [7, 8, 9], [10, 11, 12], [13, 14, 15]])]);
             let legp = if legacy == 4 { Body::OldPalette04(lp) } else { Body::OldPalette11(lp) };
-            if order == 0 {
-                f.frames[0].push(newp);
-                f.frames[0].push(legp);
-            } else {
-                f.frames[0].push(legp);
-                f.frames[0].push(newp);
+            match order {
+                0 => {
+                    f.frames[0].push(newp);
+                    f.frames[0].push(legp);
+                }
+                1 => {
+                    f.frames[0].push(legp);
+                    f.frames[0].push(newp);
+                }
+                2 => {
+                    f.frames[0].push(newp);
+                    f.frames[1].push(legp);
+                }
+                3 => {
+                    f.frames[0].push(legp);
+                    f.frames[1].push(newp);
+                }
+                _ => {
+                    f.frames[0].push(newp);
+                    f.frames[2].push(legp);
+                }
             }
             f.frames[0].push(Body::Layer(Layer::image("l")));
             if indexed == 1 {
